@@ -23,7 +23,31 @@ def expect(repo, fmt, dirt):
     return dict(head=h, anc=anc, vset=vset, nearest=nearest)
 
 
+class _WithoutNested:
+    """the same repository as zerv sees it if annotated tags of tags did not exist"""
+    def __init__(self, repo):
+        self._r = repo
+        self.tags = [t for t in repo.tags if not t.get("nested")]
+
+    def tags_at(self, cid):
+        return [t["name"] for t in self.tags if t["cid"] == cid]
+
+    def __getattr__(self, k):
+        return getattr(self._r, k)
+
+
 def judge(repo, fmt, dirty_expected, obs, via):
+    out = _judge(repo, fmt, dirty_expected, obs, via)
+    if out and not out[0][0].startswith("panic") and any(t.get("nested") for t in repo.tags):
+        # recorded finding: a version tag that is an annotated tag of a tag is not seen. Attributed to it only when zerv's whole answer is
+        # exactly what the model says for the repository without those tags
+        if not _judge(_WithoutNested(repo), fmt, dirty_expected, obs, via):
+            nested = sorted(t["name"] for t in repo.tags if t.get("nested"))
+            return [("nested-annotated-tag-not-seen", "zerv answers as if the nested annotated tag(s) %r did not exist (first difference: %s)" % (nested, out[0][1][:160]))]
+    return out
+
+
+def _judge(repo, fmt, dirty_expected, obs, via):
     """obs: normalised observation dict or {'err': ...}. Returns list of (sig, why)."""
     e = expect(repo, fmt, dirty_expected)
     head = repo.commits[e["head"]]
